@@ -75,10 +75,10 @@ def frames(env):
 def snap_matrix(m):
     if m is None:
         return None
-    s = {"X": np.asarray(m.design_matrix)}
+    s = {"X": np.array(m.design_matrix, copy=True)}  # snapshots are copies: an in-place change of the object must show
     if hasattr(m, "slices"):
         s["slices"] = {k: (v.start, v.stop) for k, v in m.slices.items()}
-        s["by_name"] = {k: np.asarray(m[k]) for k in m.terms}
+        s["by_name"] = {k: np.array(m[k], copy=True) for k in m.terms}
     if hasattr(m, "factors_with_new_levels"):
         s["new_levels"] = tuple(m.factors_with_new_levels)
     return s
@@ -293,6 +293,97 @@ def reference_cached(chain, mode, sym, env):
     return _REF[key]
 
 
+SEED_FORMULAS = ["y ~ (a:b):(b:c)", "y ~ a:b:a", "y ~ c:a:c:b", "y ~ (a:b)*(b:c)", "y ~ (a + b + c)**3", "y ~ a*b*c - a:c", "y ~ (1|a:b:a) + (b:a|c)", "y ~ f(b, a=1, c=2):a", "y ~ a/b/c + c/b/a",
+                 "y ~ (a + b)*(b + c)*(a + c)", "y ~ {a + b}:c:{a + b}", "y ~ 0 + a:b:c"]
+
+
+def determinism_across_processes(rep):
+    """model_description and design_matrices give the same terms, names, labels and numbers in every
+    process: three fresh interpreters with different string-hash seeds (plain API, no symbolic part)"""
+    import json as _json
+    import os
+    import subprocess
+
+    prog = (
+        "import json, sys, warnings\n"
+        "warnings.simplefilter('ignore')\n"
+        "import numpy as np, pandas as pd\n"
+        "from formulae import model_description, design_matrices\n"
+        "F = json.loads(sys.argv[1])\n"
+        "df = pd.DataFrame({'y': [1.0, 2.5, 0.5, 4.0, 3.0, 2.0, 1.5, 0.0], 'a': list('ppqqppqq'), 'b': list('uvuvvuvu'), 'c': list('mmmmnnnn')})\n"
+        "out = {}\n"
+        "for f in F:\n"
+        "    try:\n"
+        "        m = model_description(f)\n"
+        "        d = {'common': [t.name for t in m.common_terms], 'group': [t.name for t in m.group_terms]}\n"
+        "        if 'f(' not in f:\n"
+        "            dm = design_matrices(f, df)\n"
+        "            if dm.common is not None:\n"
+        "                d['labels'] = [str(c) for c in dm.common.as_dataframe().columns]\n"
+        "                d['X'] = np.asarray(dm.common.design_matrix, dtype=float).tolist()\n"
+        "            if dm.group is not None:\n"
+        "                d['glabels'] = [l for t in dm.group.terms.values() for l in t.labels]\n"
+        "                d['Z'] = np.asarray(dm.group.design_matrix, dtype=float).tolist()\n"
+        "        out[f] = d\n"
+        "    except Exception as e:\n"
+        "        out[f] = {'exc': type(e).__name__}\n"
+        "print(json.dumps(out, sort_keys=True))\n"
+    )
+    results = {}
+    for hs in ("0", "1", "77"):
+        env = dict(os.environ, PYTHONHASHSEED=hs, PYTHONPATH=os.environ.get("PYTHONPATH", ""))
+        r = subprocess.run([sys.executable, "-c", prog, _json.dumps(SEED_FORMULAS)], capture_output=True, text=True, env=env, timeout=300)
+        if r.returncode != 0 or not r.stdout.strip():
+            rep.inconclusive.append(f"determinism run with PYTHONHASHSEED={hs} failed: {r.stderr[-200:]}")
+            return
+        results[hs] = _json.loads(r.stdout.strip().splitlines()[-1])
+    base = results["0"]
+    n = 0
+    for f in SEED_FORMULAS:
+        n += 1
+        for hs in ("1", "77"):
+            if results[hs][f] != base[f]:
+                diff = [k for k in set(base[f]) | set(results[hs][f]) if base[f].get(k) != results[hs][f].get(k)]
+                rep.violations.append({"label": "the result depends on the process (string-hash seed)", "signature": {"what": "the result depends on the process (string-hash seed)", "part": "determinism", "formula": f},
+                                       "replay": {"formula": f, "differs_in": diff, "seed0": {k: base[f].get(k) for k in diff if k not in ("X", "Z")}, f"seed{hs}": {k: results[hs][f].get(k) for k in diff if k not in ("X", "Z")}},
+                                       "reproduced": True, "detail": f"{f}: {diff} differ between PYTHONHASHSEED=0 and {hs}"})
+                break
+    rep.extra["determinism_formulas_x_seeds"] = n * 3
+
+
+def caller_objects_untouched(rep):
+    """objects passed by name through extra_namespace are left exactly as they were (plain API): level lists,
+    knot arrays in any order, encoding objects, dicts"""
+    import copy as _copy
+
+    from formulae import design_matrices
+    from formulae.categorical import Sum, Treatment
+
+    rng = np.random.RandomState(3)
+    df = pd.DataFrame({"y": rng.normal(size=12), "x": np.linspace(0.0, 10.0, 12)[rng.permutation(12)], "k": [3, 1, 2] * 4, "g": list("aabbccaabbcc")})
+    ns = {"lv": [2, 3, 1], "kn": np.array([7.0, 2.0, 4.5]), "knl": [6.0, 3.0], "tr": Treatment(2), "sm": Sum(), "opts": {"q": 1}, "tup": (3, 1, 2)}
+    before = {"lv": list(ns["lv"]), "kn": ns["kn"].copy(), "knl": list(ns["knl"]), "tr": _copy.deepcopy(ns["tr"].__dict__), "sm": _copy.deepcopy(ns["sm"].__dict__), "opts": dict(ns["opts"]), "tup": tuple(ns["tup"])}
+    frame_before = df.copy(deep=True)
+    n = 0
+    for f in ("y ~ C(k, levels=lv)", "y ~ bs(x, knots=kn)", "y ~ bs(x, knots=knl, degree=2)", "y ~ C(k, tr) + C(g, sm)", "y ~ C(k, sm):x", "y ~ T(k, levels=tup)", "y ~ (bs(x, knots=kn)|g)"):
+        try:
+            dm = design_matrices(f, df, extra_namespace=ns)
+            if dm.common is not None:
+                dm.common.evaluate_new_data(df.iloc[:5])
+            if dm.group is not None:
+                dm.group.evaluate_new_data(df.iloc[:5])
+        except Exception as e:  # noqa -- whether the call is accepted is not the subject here
+            rep.extra.setdefault("caller_objects_refused", []).append(f"{f}: {type(e).__name__}")
+        n += 1
+        now = {"lv": list(ns["lv"]), "kn": ns["kn"].copy(), "knl": list(ns["knl"]), "tr": ns["tr"].__dict__, "sm": ns["sm"].__dict__, "opts": dict(ns["opts"]), "tup": tuple(ns["tup"])}
+        changed = [k for k in before if (not np.array_equal(now[k], before[k]) if k == "kn" else now[k] != before[k])]
+        if changed or not df.equals(frame_before) or list(df.columns) != list(frame_before.columns):
+            rep.violations.append({"label": "an object of the caller passed by name was modified", "signature": {"what": "an object of the caller passed by name was modified", "part": "namespace", "formula": f, "objects": changed},
+                                   "replay": {"formula": f, "changed": changed}, "reproduced": True, "detail": f"{f}: {changed or 'frame'} changed"})
+            return
+    rep.extra["caller_object_formulas"] = n
+
+
 def run(tier, seed):
     harness.tier = tier
     rep = core.Report(ID, tier, seed)
@@ -303,10 +394,13 @@ def run(tier, seed):
     rep.bounds = {"history length": K, "pool": {"formulas": FORMULAS if tier != "quick" else [FORMULAS[i] for i in (0, 1)] + ["(first build also) " + FORMULAS[4]], "frames": "3 frames with disjoint z3 symbols (one containing an unseen group level)", "modes": MODES},
                   "operations": "build(formula, frame) | common.evaluate_new_data(design, frame) | group.evaluate_new_data(design, frame)" + (" | config[...] = mode" if K > 3 else "") + "; the initial mode and the first build are case parameters",
                   "cases": len(cs)}
+    rep.bounds["plain-API parts"] = f"determinism across three interpreter processes with different string-hash seeds on {len(SEED_FORMULAS)} formulas; caller objects passed by name (lists, arrays, encoding objects) compared before / after 7 formulas"
     rep.outside = ["histories longer than the bound; interleaving across threads/processes", "state outside formulae's own modules (pandas / numpy global options)"]
     rep.stubs = pipe.STUBS + ["'fresh process-state' is realised by deleting formulae* from sys.modules and importing it again (new module objects, registries, config singleton, classes), not by a new OS process"]
     rep.assumptions = []
     rep.rule = "one path = one history; non-trivial = histories with at least two operations touching the same design or the same transform class"
     pipe.run_cases(rep, "vf.props.c07", "harness", cs)
+    determinism_across_processes(rep)
+    caller_objects_untouched(rep)
     rep.nontrivial = int(rep.stats.get("paths", 0))
     return core.finish(rep)
